@@ -3,6 +3,7 @@ mod c02;
 mod c03;
 mod c06;
 mod c07;
+mod c08;
 mod c09;
 mod c10;
 mod c15;
@@ -25,6 +26,7 @@ fn main() {
         "C03" => c03::run(rest),
         "C06" => c06::run(rest),
         "C07" => c07::run(rest),
+        "C08" => c08::run(rest),
         "C09" => c09::run(rest),
         "C10" => c10::run(rest),
         "C15" => c15::run(rest),
